@@ -7,7 +7,7 @@
    somewhere in the input stands `[name<blanks>"...\c` with c neither `\` nor `"` before the
    closing quote.  These are the two known classes (findings.txt: bom, subsection-escape). *)
 From GixV.Base Require Import Bytes BytesFacts Outcome.
-From GixV.C26 Require Import Tables Model Spec Proofs.
+From GixV.C26 Require Import Tables Model Spec Proofs Totality.
 
 (* the statement of the property as written; FALSE of the code as it is (two refutations below) *)
 Definition events_roundtrip_full_statement : Prop :=
@@ -34,24 +34,15 @@ Proof. exact has_bom_false_len. Qed.
 Theorem events_roundtrip_refuted_bom :
   exists input evs, from_bytes input = Ok evs /\ serialize evs <> input /\
                     has_bom input = true /\ subsection_escape_class input = false.
-Proof.
-  exists (xef :: xbb :: xbf :: bs "[a]"), [SectionHeader (Header (bs "a") None None)].
-  repeat split; try reflexivity. discriminate.
-Qed.
+Proof. exact L_refuted_bom. Qed.
 
 Theorem events_roundtrip_refuted_subsection_escape :
   exists input evs, from_bytes input = Ok evs /\ serialize evs <> input /\
                     has_bom input = false /\ subsection_escape_class input = true.
-Proof.
-  exists (bs "[a " ++ [x22] ++ bs "b\c" ++ [x22] ++ bs "]"),
-         [SectionHeader (Header (bs "a") (Some (bs " ")) (Some (bs "bc")))].
-  repeat split; try reflexivity. discriminate.
-Qed.
+Proof. exact L_refuted_subsection_escape. Qed.
 
 Theorem events_roundtrip_refuted : ~ events_roundtrip_full_statement.
-Proof.
-  intros H. destruct events_roundtrip_refuted_bom as [i [e [H1 [H2 _]]]]. exact (H2 (H i e H1)).
-Qed.
+Proof. exact L_refuted. Qed.
 
 (* parse::Events (frontmatter + sections) holds exactly the dispatched events: into_vec gives them back *)
 Theorem events_grouping_lossless : forall evs, into_vec (group evs [] None []) = evs.
@@ -60,9 +51,17 @@ Proof. exact L_into_vec_group. Qed.
 Theorem events_struct_roundtrip_except_known : forall input e,
   events_from_bytes input = Ok e -> has_bom input = false -> subsection_escape_class input = false ->
   serialize (into_vec e) = input.
-Proof.
-  intros input e H. exact (L_events_roundtrip_except_known input (into_vec e) (L_events_from_bytes_flat input e H)).
-Qed.
+Proof. exact L_events_struct_rt. Qed.
+
+(* the parser never panics and never exhausts its fuel, for ANY byte string: every slice index of
+   value_impl / from_bytes is in range, winnow's "parsers must always consume" assertions behind the
+   `.expect(..)` in from_bytes are unreachable, and length+1 rounds suffice for every loop *)
+Theorem parser_total : forall input, from_bytes input <> Panic /\ from_bytes input <> OutOfFuel.
+Proof. exact L_from_bytes_total. Qed.
+
+Theorem events_parser_total : forall input,
+  events_from_bytes input <> Panic /\ events_from_bytes input <> OutOfFuel.
+Proof. exact L_events_parser_total. Qed.
 
 (* per-parser round trips (the pieces the main theorem is composed of) *)
 
